@@ -281,6 +281,7 @@ func (r *readIdleHandler) onReadTimeout() {
 		// check if the idle time expires.
 		expired = time.Since(r.lastReadTime) >= r.idleTime
 		ctx = r.handlerCtx
+		verifAt(vpReadIdleCheck, r)
 	})
 
 	if expired && ctx != nil {
@@ -380,6 +381,7 @@ func (w *writeIdleHandler) onWriteTimeout() {
 		// check if the idle time expires.
 		expired = time.Since(w.lastWriteTime) >= w.idleTime
 		ctx = w.handlerCtx
+		verifAt(vpWriteIdleCheck, w)
 	})
 
 	// check if the idle time expires
